@@ -4,7 +4,8 @@ K   : Lean model (PharmpyModel/C18/{Sets,Mfl,Search}.lean via drv_c18) vs the re
       partitions / subsets / non_empty_subsets; td_exhaustive_no_of_etas / td_exhaustive_block_structure
       task inputs; ModelFeatures.create_from_mfl_statement_list, +, -, ==, contain_subset,
       least_number_of_transformations (keys), convert_to_funcs (keys) on the PK fragment of MFL;
-      all_combinations / exhaustive / exhaustive_stepwise / reduced_stepwise task graphs.
+      all_combinations / exhaustive / exhaustive_stepwise / reduced_stepwise task graphs;
+      LET / COVARIATE interpreters, covariate feature keys and _let_subs (PharmpyModel/C18/Let.lean, op letkeys).
 T   : harness/translate/c18_tables.py regenerates PharmpyModel/Generated/C18Tables.lean
       (wildcard tuples, not_supported_combo, literal early exits, PK defaults) on every run.
 Mon : the property statement on the real code: set-partition / powerset references computed
@@ -21,8 +22,8 @@ from harness.translate import c18_tables
 
 ID = "C18"
 DRIVER = "drv_c18"
-LEAN_TARGETS = ["PharmpyProofs.C18.Properties", "drv_c18"]
-PROPERTIES = ["PharmpyProofs/C18/Properties.lean"]
+LEAN_TARGETS = ["PharmpyProofs.C18.Properties", "PharmpyProofs.C18.LetProperties", "drv_c18"]
+PROPERTIES = ["PharmpyProofs/C18/Properties.lean", "PharmpyProofs/C18/LetProperties.lean"]
 LEAN_SOURCES = ["PharmpyModel/C18/*.lean", "PharmpyModel/Generated/C18Tables.lean", "PharmpyProofs/C18/*.lean",
                 "Drivers/C18.lean"]
 TIME_LIMIT = {"quick": 900, "thorough": 3000}
@@ -33,10 +34,13 @@ RULE = ("five case kinds from one PRNG: sets (n<=6 quick / <=8 thorough distinct
         "ranges, wildcards, DEPOT/NODEPOT, DRUG/MET, repeated statements, random case/blanks/separators; every "
         "operation on the pair and on chained results), search (random sub-dicts of convert_to_funcs of a generated "
         "space, <= 400 stepwise candidates), roundtrip (strings over the full grammar incl. COVARIATE/LET/@ref/"
-        "ALLOMETRY/PD/METABOLITE). non-trivial = at least two statements or n>=2; distinct = distinct case JSON")
+        "ALLOMETRY/PD/METABOLITE), let (1-3 LET definitions whose variable names are drawn from the grammar's VARIABLE_NAME in "
+        "upper/lower/capitalised/mixed spelling, used through @references on the parameter and/or covariate side of 1-3 "
+        "COVARIATE statements, values in random case, definitions before or after their use, optional PK statement; "
+        "compared with the explicit reference-free description). non-trivial = at least two statements or n>=2; distinct = distinct case JSON")
 TRUSTED = [
     "Lean 4.33 kernel; axioms propext, Quot.sound, Classical.choice only (audited per theorem each run)",
-    "hand-written models PharmpyModel/C18/{Sets,Mfl,Search}.lean tied to the code by the correspondence run of this invocation",
+    "hand-written models PharmpyModel/C18/{Sets,Mfl,Search,Let}.lean tied to the code by the correspondence run of this invocation",
     "harness/translate/c18_tables.py (Python ast -> Lean tables; refuses unknown shapes)",
     "lark (tokenising/LALR parsing of the MFL grammar), dataclasses, itertools.combinations/product, networkx node order",
     "CPython: tuple(set(small ints below 8)) iterates in ascending order; dict preserves insertion order",
@@ -45,8 +49,9 @@ TRUSTED = [
 ASSUMPTIONS = [
     "orders produced by tuple(set(<Name objects>)) are hash-randomised and not part of the contract: compared as sorted lists",
     "counts in generated MFL strings are below 8 so that tuple(set(ints)) is ascending",
-    "the MFL algebra is modelled on the PK fragment (absorption, elimination, transits, peripherals, lagtime); covariates, "
-    "PD and metabolite statements are covered by the round-trip monitor only",
+    "the MFL algebra is modelled on the PK fragment (absorption, elimination, transits, peripherals, lagtime); the covariate "
+    "algebra (+, -, ==), PD and metabolite statements are covered by the round-trip monitor only; LET/@reference resolution and "
+    "the covariate expansion are modelled on the parse tree (lark itself trusted) with the empty Model() as environment",
     "least_number_of_transformations: only the keys are observed (the functions are the modeling setters, outside)",
 ]
 
@@ -248,6 +253,99 @@ def gen_full_statement(rng):
     return f"METABOLITE({_modes(rng, ['BASIC', 'PSC'], 0.15)})"
 
 
+# ---- LET definitions and @references ----------------------------------------------------------
+
+BUILTIN_REFS = {"ABSORPTION", "ELIMINATION", "DISTRIBUTION", "CATEGORICAL", "CONTINUOUS", "IIV", "PD", "PD_IIV", "PK",
+                "BIOAVAIL", "PK_IIV"}
+PARAM_POOL = ["CL", "VC", "V", "MAT", "Q", "KA", "V2", "Q-1", "MTT"]
+COV_POOL = ["WT", "AGE", "SEX", "CLCR", "BMI", "HT", "RACE"]
+FP_POOL = ["LIN", "CAT", "CAT2", "PIECE_LIN", "EXP", "POW", "CUSTOM"]
+VAR_WORDS = ["cont", "cat", "covs", "pk", "params", "my_covs", "x", "y", "grp", "iiv_p", "a_b", "set_", "continuous_covs", "_p"]
+
+
+def gen_var_name(rng):
+    """a VARIABLE_NAME of the grammar (/[a-zA-Z_]+/) in any spelling: the language does not restrict the case"""
+    if rng.random() < 0.4:
+        w = "".join(rng.choice("abcdeklmnopvwxyz_") for _ in range(rng.randint(1, 7)))
+    else:
+        w = rng.choice(VAR_WORDS)
+    style = rng.choice(["upper", "upper", "lower", "lower", "cap", "mixed"])
+    if style == "upper":
+        return w.upper()
+    if style == "lower":
+        return w.lower()
+    if style == "cap":
+        return w.capitalize()
+    return "".join(c.upper() if rng.random() < 0.5 else c.lower() for c in w)
+
+
+def gen_let_case(rng, seed):
+    tok = lambda w: _case(rng, w)
+    n_let = rng.choice([1, 1, 2, 2, 3])
+    lets, used = [], set()
+    while len(lets) < n_let:
+        nm = gen_var_name(rng)
+        if nm.upper() in used or nm.upper() in BUILTIN_REFS:
+            continue
+        used.add(nm.upper())
+        role = "p" if (len(lets) % 2 == 1 or rng.random() < 0.3) else "c"
+        pool = PARAM_POOL if role == "p" else COV_POOL
+        lets.append((role, nm, [tok(v) for v in rng.sample(pool, rng.choice([1, 2, 2, 3]))]))
+    covs, have_mandatory, have_ref = [], False, False
+    for i in range(rng.choice([1, 1, 2, 3])):
+        def side(role, pool):
+            nonlocal have_ref
+            cands = [l for l in lets if l[0] == role]
+            if cands and rng.random() < 0.65:
+                have_ref = True
+                return ["ref", rng.choice(cands)[1]]
+            return ["vals", [tok(v) for v in rng.sample(pool, rng.choice([1, 1, 2, 3]))]]
+        P, C = side("p", PARAM_POOL), side("c", COV_POOL)
+        optional = have_mandatory or rng.random() < 0.4
+        have_mandatory = have_mandatory or not optional
+        fp = "wild" if (optional and rng.random() < 0.2) else ["fps", [tok(v) for v in rng.sample(FP_POOL, rng.choice([1, 1, 2, 3]))]]
+        covs.append(["cov", P, C, fp, rng.choice([None, None, "*", "+"]), optional])
+    if not have_ref:  # every case uses at least one LET through a reference
+        role, nm, _ = lets[0]
+        covs[0][1 if role == "p" else 2] = ["ref", nm]
+    stmts = [["let", nm, vals] for _, nm, vals in lets] + covs
+    if rng.random() < 0.25:  # a definition may follow its use (the definitions are collected first)
+        rng.shuffle(stmts)
+    if rng.random() < 0.3:
+        stmts.insert(rng.randrange(len(stmts) + 1), ["raw", gen_pk_statement(rng, 0.0)])
+    return {"kind": "let", "stmts": stmts, "seed": seed}
+
+
+def render_let(stmts, explicit=False):
+    """the MFL string of a `let` case; explicit=True: the reference-free description (LET values written out)"""
+    defs = {}
+    for st in stmts:
+        if st[0] == "let":
+            defs[st[1]] = st[2]  # the last definition of a name wins
+
+    def vals(v):
+        return v[0] if len(v) == 1 else "[" + ",".join(v) + "]"
+
+    def sym(x):
+        if x == "wild":
+            return "*"
+        if x[0] == "ref":
+            return vals(defs[x[1]]) if explicit and x[1] in defs else "@" + x[1]
+        return vals(x[1])
+
+    out = []
+    for st in stmts:
+        if st[0] == "raw":
+            out.append(st[1])
+        elif st[0] == "let":
+            if not explicit:
+                out.append(f"LET({st[1]},{vals(st[2])})")
+        else:
+            _, P, C, fp, op, opt = st
+            out.append(f"COVARIATE{'?' if opt else ''}({sym(P)},{sym(C)},{'*' if fp == 'wild' else vals(fp[1])}{',' + op if op else ''})")
+    return ";".join(out)
+
+
 def gen_cases(rng: random.Random, n: int, tier: str):
     out = []
     nmax = 6 if tier == "quick" else 8
@@ -292,6 +390,8 @@ def gen_cases(rng: random.Random, n: int, tier: str):
             if rng.random() < 0.4:
                 c["mfl2"] = gen_pk_string(rng, 0.05, nmax=3)  # table = {**funcs(space 1), **funcs(space 2)}
             out.append(c)
+        elif r < 0.94:
+            out.append(gen_let_case(rng, seed))
         else:
             n_st = rng.choice([1, 1, 2, 3, 4])
             s = ";".join(gen_full_statement(rng) for _ in range(n_st))
@@ -336,6 +436,13 @@ def corpus_cases():
     cs.append({"kind": "alg", "a": "ELIMINATION(MM);ABSORPTION([FO,ZO]);LAGTIME(ON)", "b": "ELIMINATION(*);ABSORPTION(*);LAGTIME(*)", "seed": 25})
     cs.append({"kind": "roundtrip", "mfl": "COVARIATE(*,*,EXP)", "seed": 20})
     cs.append({"kind": "roundtrip", "mfl": "LET(x,[CL,V]);COVARIATE?(@x,WT,[EXP,LIN],+);TRANSITS([1,2,3],*)", "seed": 21})
+    # LET names in any spelling of the grammar's VARIABLE_NAME, used through @references on either side
+    cs.append({"kind": "let", "seed": 28, "stmts": [["let", "cont", ["WT", "AGE"]],
+                                                    ["cov", ["vals", ["CL", "VC"]], ["ref", "cont"], ["fps", ["EXP", "LIN"]], None, False]]})
+    cs.append({"kind": "let", "seed": 29, "stmts": [["let", "My_Params", ["cl", "Vc"]], ["let", "COVS", ["wt"]],
+                                                    ["cov", ["ref", "My_Params"], ["ref", "COVS"], "wild", "+", True],
+                                                    ["raw", "ABSORPTION(FO)"],
+                                                    ["cov", ["ref", "My_Params"], ["vals", ["SEX"]], ["fps", ["cat"]], "*", False]]})
     cs.append({"kind": "iiv", "blocks": [["ETA_1"], ["ETA_2", "ETA_10"], ["ETA_CL"]], "fixed": [], "keep": [], "offset": 0, "seed": 22})
     cs.append({"kind": "iiv", "blocks": [["ETA_1"], ["ETA_2", "ETA_10"], ["ETA_CL"]], "fixed": ["ETA_CL"], "keep": ["PETA_1"],
                "offset": 3, "seed": 23})
@@ -364,6 +471,16 @@ def shrink(case):
             c = dict(case)
             c["size"] = case["size"] - 1
             yield c
+    elif k == "let":
+        sts = case["stmts"]
+        for i in range(len(sts)):
+            rest = sts[:i] + sts[i + 1:]
+            names = {st[1] for st in rest if st[0] == "let"}
+            refs = {x[1] for st in rest if st[0] == "cov" for x in st[1:3] if x != "wild" and x[0] == "ref"}
+            if refs <= names and any(st[0] == "cov" for st in rest):
+                c = dict(case)
+                c["stmts"] = rest
+                yield c
     elif k == "iiv":
         bl = case["blocks"]
         if len(bl) > 1:
@@ -1293,6 +1410,125 @@ def run_roundtrip(case, drv):
     return {"k": [], "mon": mon, "tags": tags, "nontrivial": len(sts) >= 2}
 
 
+# ---- LET definitions and @references ------------------------------------------------------------
+
+def cov_fields(c):
+    """a Covariate statement object as wire data"""
+    def sym(x):
+        if isinstance(x, Wildcard):
+            return "wild"
+        if isinstance(x, Ref):
+            return ["ref", x.name]
+        return ["vals"] + list(x)
+    return ["cov", sym(c.parameter), sym(c.covariate), "wild" if isinstance(c.fp, Wildcard) else ["fps"] + list(c.fp), c.op,
+            "true" if c.optional.option else "false"]
+
+
+def run_let(case, drv):
+    from pharmpy.model import Model
+    from pharmpy.tools.mfl.feature.covariate import features as covariate_features
+    from pharmpy.tools.mfl.helpers import funcs as mfl_funcs
+    from pharmpy.tools.mfl.statement.feature.covariate import Covariate
+    k, mon, tags = [], [], []
+    stmts = case["stmts"]
+    s, s_exp = render_let(stmts), render_let(stmts, explicit=True)
+    n_ref = sum(1 for st in stmts if st[0] == "cov" for x in st[1:3] if x != "wild" and x[0] == "ref")
+    tags.append(f"let-refs={n_ref}")
+    for st in stmts:
+        if st[0] == "let":
+            nm = st[1]
+            tags.append("let-name-" + ("upper" if nm == nm.upper() else "lower" if nm == nm.lower() else "mixed"))
+    expanded = lambda ss: list(mfl_funcs(Model(), ss, (covariate_features,)).keys())
+    sts, e = attempt(lambda: mfl_parse(s))
+    sts_exp, e_exp = attempt(lambda: mfl_parse(s_exp))
+    if e or e_exp:
+        if e == "ValueError" or (e is None and e_exp == "ValueError"):
+            tags.append("let-refused")  # documented refusals of validate_mfl_list
+        else:
+            mon.append({"cls": f"grammar-string-parse-raises-{e or e_exp}", "what": f"parse({s if e else s_exp!r})"})
+        return {"k": k, "mon": mon, "tags": tags, "nontrivial": False}
+
+    # ---- reference (independent of pharmpy): the product parameters x covariates x effects of every COVARIATE
+    #      statement with each @reference standing for the values of the LET of exactly that name
+    defs = {}
+    for st in stmts:
+        if st[0] == "let":
+            defs[st[1]] = [v.upper() for v in st[2]]
+    want = set()
+    for st in stmts:
+        if st[0] != "cov":
+            continue
+        _, P, C, fp, op, opt = st
+        val = lambda x: defs[x[1]] if x[0] == "ref" else [v.upper() for v in x[1]]
+        fps = ["lin", "piece_lin", "exp", "pow"] if fp == "wild" else [f.lower() for f in fp[1]]
+        for p, c, f in itertools.product(val(P), val(C), fps):
+            want.add(("COVARIATE", p, c, f, op or "*", "ADD"))
+            if opt:
+                want.add(("COVARIATE", p, c, f, op or "*", "REMOVE"))
+    tags.append(f"let-combinations<={(len(want) // 10 + 1) * 10}")
+
+    got_exp = expanded(sts_exp)
+    if set(got_exp) != want:
+        mon.append({"cls": "covariate-expansion-not-the-product",
+                    "what": f"{s_exp!r} expands to {len(set(got_exp))} combinations, the product has {len(want)}"})
+    got = expanded(sts)
+    if set(got) != want and set(got_exp) == want:
+        mon.append({"cls": "let-reference-does-not-denote-its-definition",
+                    "what": f"{s!r} expands to {len(set(got))} feature combinations, the explicit description {s_exp!r} to {len(want)} "
+                            f"(missing {sorted(want - set(got))[:2]}, extra {sorted(set(got) - want)[:2]})"})
+    # ---- print -> parse keeps the expanded set
+    printed, e = attempt(lambda: stringify(sts))
+    back, e2 = attempt(lambda: mfl_parse(printed)) if not e else (None, e)
+    if e or e2:
+        mon.append({"cls": f"stringify-raises-{e}" if e else "stringify-parse-roundtrip", "what": f"{s!r} prints as {printed!r}: {e or e2}"})
+    elif set(expanded(back)) != set(got):
+        mon.append({"cls": "let-reference-lost-by-print-parse",
+                    "what": f"{s!r} prints as {printed!r} which expands to different feature combinations"})
+    # ---- search space object: LET substituted, same covariate statements as the explicit space, repr parses back
+    mf, e = attempt(lambda: ModelFeatures.create_from_mfl_statement_list(sts))
+    mf_exp, e_exp = attempt(lambda: ModelFeatures.create_from_mfl_statement_list(sts_exp))
+    if e or e_exp:
+        mon.append({"cls": "create-raises", "what": f"create_from_mfl_statement_list raises {e or e_exp} on {s if e else s_exp!r}"})
+        return {"k": k, "mon": mon, "tags": tags, "nontrivial": True}
+    if [cov_fields(c) for c in mf.covariate] != [cov_fields(c) for c in mf_exp.covariate]:
+        mon.append({"cls": "let-not-substituted-in-search-space",
+                    "what": f"search space of {s!r} has covariate statements {stringify(mf.covariate)!r}, "
+                            f"the explicit description gives {stringify(mf_exp.covariate)!r}"})
+    r, e = attempt(lambda: repr(mf))
+    mf2, e2 = attempt(lambda: mfl_parse(r, mfl_class=True)) if not e else (None, e)
+    if e or e2:
+        mon.append({"cls": f"repr-raises-{e}" if e else "repr-does-not-parse", "what": f"{s!r}: repr {r!r} {e or e2}"})
+    else:
+        got2 = set(mf2.convert_to_funcs(["covariate"]).keys())
+        if got2 != want and set(got_exp) == want:
+            mon.append({"cls": "repr-roundtrip-changes-space",
+                        "what": f"{s!r}: printed space {r!r} expands to {len(got2)} covariate combinations, expected {len(want)}"})
+
+    # ---- K: interpreters, expansion, _let_subs (model) vs the real statement objects
+    if drv is not None:
+        wire_sym = lambda x: "wild" if x == "wild" else (["ref", x[1]] if x[0] == "ref" else ["vals"] + list(x[1]))
+        wire = []
+        for st in stmts:
+            if st[0] == "let":
+                wire.append(["let", st[1], list(st[2])])
+            elif st[0] == "cov":
+                wire.append(["cov", wire_sym(st[1]), wire_sym(st[2]), "wild" if st[3] == "wild" else ["fps"] + list(st[3][1]),
+                             st[4] or "*", "true" if st[5] else "false"])
+        ans = drv.ask(["letkeys", wire])
+        real_stmts = [["let", x.name, list(x.value)] if isinstance(x, Let) else cov_fields(x)
+                      for x in sts if isinstance(x, (Let, Covariate))]
+        if ans[0] != real_stmts:
+            k.append(f"interpreters on {s!r}: model {ans[0]} code {real_stmts}")
+        dedup = lambda xs: list(dict.fromkeys(tuple(x) for x in xs))
+        if dedup(ans[1]) != [tuple(map(str, x)) for x in got]:
+            k.append(f"covariate feature keys of {s!r}: model {dedup(ans[1])} code {got}")
+        if ans[2] != [cov_fields(c) for c in mf.covariate]:
+            k.append(f"_let_subs on {s!r}: model {ans[2]} code {[cov_fields(c) for c in mf.covariate]}")
+        if dedup(ans[3]) != [tuple(map(str, x)) for x in got_exp]:
+            k.append(f"covariate feature keys of the explicit {s_exp!r}: model {dedup(ans[3])} code {got_exp}")
+    return {"k": k, "mon": mon, "tags": tags, "nontrivial": True}
+
+
 def run_case(case, drv):
     kind = case["kind"]
     if kind == "sets":
@@ -1305,4 +1541,6 @@ def run_case(case, drv):
         return run_search(case, drv)
     if kind == "roundtrip":
         return run_roundtrip(case, drv)
+    if kind == "let":
+        return run_let(case, drv)
     raise ValueError(kind)
